@@ -9,8 +9,8 @@ from harness import common, tlc
 def gen(run, P, BL, maxw, maxlen, vals):
     with common.scratch("trc_") as d:
         cf = os.path.join(d, "gen.cfg")
-        open(cf, "w").write("SPECIFICATION Spec\nCONSTANT P = %d\nCONSTANT BL = %d\nCONSTANT MaxW = %d\nCONSTANT MaxLen = %d\nCONSTANT Vals = {%s}\n"
-                            "INVARIANT Inv_Sat\nINVARIANT Inv_ValLC\nINVARIANT Inv_Bool\nINVARIANT EmitBeh\nCHECK_DEADLOCK FALSE\n" % (P, BL, maxw, maxlen, ", ".join(map(str, vals))))
+        open(cf, "w").write("SPECIFICATION Spec\nCONSTANT P = %d\nCONSTANT BL = %d\nCONSTANT MaxW = %d\nCONSTANT MaxLen = %d\nCONSTANT Vals <- %s\n"
+                            "INVARIANT Inv_Sat\nINVARIANT Inv_ValLC\nINVARIANT Inv_Bool\nINVARIANT EmitBeh\nCHECK_DEADLOCK FALSE\n" % (P, BL, maxw, maxlen, vals))
         res = tlc.run("Tracer", cfg=cf, workers=12, heap="6g")
     run.add_tlc(res, "Tracer.tla: Sat / value==wire / booleans on the mechanism model, MaxLen=%d" % maxlen)
     if res.violated:
@@ -83,7 +83,7 @@ def impl_of(tr, P, maxw):
 
 def run_conformance(run, tier):
     P, BL, maxw = 67, 2, 14
-    behs = gen(run, P, BL, maxw, 3 if tier == "quick" else 4, [0, 1, 3] if tier == "quick" else [-1, 0, 1, 3])
+    behs = gen(run, P, BL, maxw, 3 if tier == "quick" else 4, "ValsQuick" if tier == "quick" else "ValsThorough")
     if run.violations or not behs:
         return
     if len(behs) > 40000:
